@@ -45,6 +45,29 @@ CHECKS = {
             "benchmark files), the zoo and accepted token mutants is round-tripped under both generator settings.",
             "Neutral form covers every slot except coord.",
             "DESIGN.md section 2, C07"),
+    "C09": ("exploration",
+            "token-trace monitor on the standalone CLexer (every token() call, error/brace/type-lookup callbacks, "
+            "lexer.filename) compared with the laid-out token sequence; progress + conservation rule on arbitrary text",
+            "Exhaustive over all ordered vocabulary pairs x 3 layouts and all strings up to the stated length over the "
+            "20-character alphabet; random 1-60 token sequences under six layouts incl. linemarkers and pragma lines.",
+            "Line/column after an already reported swallowed newline are outside the property (order-only conservation there).",
+            "DESIGN.md section 2, C09"),
+    "C10": ("exploration",
+            "reference-model monitor: hand-written recogniser of C99 literals vs the real lexer's token/error boundary "
+            "and the Constant node the parser builds",
+            "Exhaustive over all strings up to length 4 (quick) / 6 (thorough) over a 21-symbol literal alphabet; "
+            "random grammar-derived literals with one- and two-edit neighbours; malformed classes must be reported at "
+            "their first character.",
+            "2-4 character multi-char constants and lenient escapes are pinned by the suite and part of the reference.",
+            "DESIGN.md section 2, C10"),
+    "C18": ("exploration",
+            "acceptance monitor with an independent bracket matcher over the reference token stream: every structurally "
+            "malformed mutant must raise ParseError",
+            "Every single-bracket deletion/duplication/kind swap of each accepted program, non-token text and foreign "
+            "directives at token boundaries and inside linemarker lines, and all bracket strings up to length 6 (quick) / "
+            "8 (thorough) in four contexts.",
+            "Balance decided by my matcher; lexically clean injections are skipped and counted.",
+            "DESIGN.md section 2, C18"),
     "C11": ("exploration",
             "position monitor: the layout stage records the true (file, line, column) of every token; the lock-step "
             "matcher pairs AST nodes with model nodes whose token spans are known; ParseError locations checked against "
